@@ -62,6 +62,14 @@ fn handle(req: &Value) -> Value {
     let a = &req["args"];
     match f {
         "go_ident" => json!(compiler::go::mangle::go_ident(a[0].as_str().unwrap())),
+        "retag_interface" => {
+            // interface JSON -> same unit with other version numbers and a self-consistent hash
+            let mut u: compiler::artifact::InterfaceUnit = serde_json::from_str(a[0].as_str().unwrap()).unwrap();
+            u.format_version = a[1].as_u64().unwrap() as u32;
+            u.compiler_abi = a[2].as_u64().unwrap() as u32;
+            u.interface_hash = u.compute_hash();
+            json!(serde_json::to_string(&u).unwrap())
+        }
         "parse_kinds" => parse_kinds(a),
         "lex" => {
             let toks = lexer::lex(a[0].as_str().unwrap());
